@@ -17,6 +17,11 @@ pub const ALL_TIME_BURNED_FEES: Item<Asset> = Item::new("all_time_burned_fees");
 // A counter for how many active loans are being performed
 pub const LOAN_COUNTER: Item<u32> = Item::new("loan_counter");
 
+// One entry per active (nested) loan: the protocol and flash loan fees left in the vault by the
+// loans that were taken and completed inside it. Those fees must not count towards the repayment
+// of the enclosing loan.
+pub const NESTED_LOAN_FEES: Item<Vec<Uint128>> = Item::new("nested_loan_fees");
+
 /// Stores a fee in the given fees_storage_item
 pub fn store_fee(
     storage: &mut dyn Storage,
